@@ -1,3 +1,4 @@
+import Oidc.Shapes
 import Oidc.Proofs.Strings
 import Oidc.Proofs.Handler2
 import Oidc.Proofs.Handler
@@ -66,5 +67,11 @@ example : isAllowedDomain ["example.com".toList] "a@b@example.com".toList = fals
 example : isAllowedDomain ["example.com".toList] "a@example.com.evil.test".toList = false := by decide
 example : rolesGate ["admin".toList] (.array [.nonStr, .str "admin".toList]) .absent = true := by decide
 example : rolesGate ["admin".toList] .other (.array [.str "admin".toList]) = false := by decide
+
+/-! obligations against the regenerated shapes: the functions these theorems rest on still have the steps, guards, status
+    codes and literals the model was written against (`Oidc/Shapes.lean`) -/
+theorem shape_processAuthorizedRequest_ok : Oidc.Shapes.Shape_processAuthorizedRequest := by unfold Oidc.Shapes.Shape_processAuthorizedRequest; rfl
+theorem shape_handleCallback_ok : Oidc.Shapes.Shape_handleCallback := by unfold Oidc.Shapes.Shape_handleCallback; rfl
+theorem shape_refreshToken_ok : Oidc.Shapes.Shape_refreshToken := by unfold Oidc.Shapes.Shape_refreshToken; rfl
 
 end Oidc.Props.C06
